@@ -263,6 +263,8 @@ func c12Property(t *rapid.T) {
 		decided := map[uint64]int64{} // shard id -> height at which it completes (0: stays silent)
 		nOrders := rapid.IntRange(1, 2).Draw(t, "orders")
 		maxBound := int64(0)
+		cancelAt := map[uint64]int64{} // order -> height at which its gateway cancels it (if still unfinished)
+		twinTimeout := int32(0)        // when set, the next order copies this timeout (checks fall on the same height)
 		place := func() {
 			a := cfg.GenStoreNew(t, s)
 			if a == nil {
@@ -288,8 +290,19 @@ func c12Property(t *rapid.T) {
 				// accepted by Store's own validation (it only rejects 0): a timeout that wraps around as uint64
 				a.Timeout = int32(rapid.SampledFrom([]int{-1, -7, -1 << 31}).Draw(t, "timeout"))
 			}
+			if twinTimeout != 0 {
+				a.Timeout = twinTimeout
+			}
 			res := s.Do(a)
 			if res.OK {
+				twinTimeout = a.Timeout
+				if rapid.IntRange(0, 3).Draw(t, "cancelled") == 0 {
+					T := int(a.Timeout)
+					if T < 1 || T > 400 {
+						T = 1
+					}
+					cancelAt[a.Order] = s.C.Height + int64(rapid.IntRange(0, 2*T+1).Draw(t, "cancelDelay"))
+				}
 				if r := o.orders[a.Order]; r != nil && r.bound > maxBound {
 					maxBound = r.bound
 				}
@@ -299,6 +312,12 @@ func c12Property(t *rapid.T) {
 			}
 		}
 		place()
+		if nOrders > 1 && rapid.IntRange(0, 2).Draw(t, "twin") == 0 {
+			// a second order in the same block with the same timeout
+			nOrders--
+			place()
+		}
+		twinTimeout = 0
 		guardBlocks := 0
 		for {
 			// decide the fate of every newly assigned shard
@@ -319,6 +338,19 @@ func c12Property(t *rapid.T) {
 					decided[sh.Id] = 0 // silent forever
 				default:
 					decided[sh.Id] = s.C.Height + int64(rapid.IntRange(0, int(r.T)+2).Draw(t, "delay"))
+				}
+			}
+			for _, id := range chain.SortedU64(cancelAt) {
+				if cancelAt[id] > s.C.Height {
+					continue
+				}
+				delete(cancelAt, id)
+				if ord, ok := s.Last.Orders[id]; ok && ord.Status != ordertypes.OrderCompleted {
+					cn := NewAction("cancel", s.acctOf(ord.Provider))
+					cn.Order = id
+					if s.Do(cn).OK {
+						s.Label("c12-cancelled-by-gateway")
+					}
 				}
 			}
 			for _, id := range chain.SortedU64(readyAt) {
@@ -362,6 +394,11 @@ func c12Property(t *rapid.T) {
 				}
 			}
 			for _, at := range readyAt {
+				if at > s.C.Height && at < target {
+					target = at
+				}
+			}
+			for _, at := range cancelAt {
 				if at > s.C.Height && at < target {
 					target = at
 				}
